@@ -221,7 +221,8 @@ fn pairs_large<L: Tab>(run: &Run, st: bool, n: usize) {
                         let mut b = base.clone();
                         b.set(*q, !base.get(*q));
                         let lb: L = mk_tt(&b);
-                        if la.cmp(&lb) != a.cmp_num(&b) || (la < lb) != (a.cmp_num(&b) == Ordering::Less) {
+                        let w = a.cmp_num(&b);
+                        if la.cmp(&lb) != w || la.partial_cmp(&lb) != Some(w) || (la < lb) != (w == Ordering::Less) || (la <= lb) != (w != Ordering::Greater) || (la > lb) != (w == Ordering::Greater) || (la >= lb) != (w != Ordering::Less) || (la == lb) != (w == Ordering::Equal) {
                             bad.push(*q);
                         }
                     }
